@@ -197,6 +197,13 @@ def enum_structural():
         for n in (1, 2, 3):
             for r in (8, 9, 16, 17):
                 yield ('tile_many',), {'op': 'tile', 'r': r, 'in': _src(kind, 1, n)}
+        # a lazy cache directly below batch(b), read BY INDEX from above (the batch probes its input beyond the end)
+        for n in range(0, 8):
+            for bs in (1, 2, 3, 4):
+                cb = {'op': 'batch', 'n': bs, 'drop_last': False, 'in': {'op': 'cache', 'lazy': True, 'in': _src(kind, 1, n)}}
+                yield ('cache_batch_rev',), {'op': 'slice', 'form': {'k': 'slice', 'a': None, 'b': None, 'c': -1}, 'in': cb}
+                yield ('cache_batch_shuffle',), {'op': 'shuffle_once', 'seed': n, 'in': cb}
+                yield ('cache_batch_prefetch',), {'op': 'prefetch', 'workers': 2, 'buffer': 2, 'catch': False, 'in': cb}
         # a deep pipeline (a training script adds stage after stage): 60 stages over a small source
         for n in (0, 3):
             node = _src(kind, 1, n)
